@@ -254,3 +254,33 @@ def warm():
     if L.hook_present():
         C.build_harness('c10_nudge', ['libavoid'], FLAVOR)
     C.ocaml_build('c10', 'C10.v', 'c10_driver.ml', 'c10_model.ml')
+
+
+META = {
+    'property_id': PID,
+    'level_claimed': {
+        'category': 'proof',
+        'text': 'Coq theorems (unbounded: any region, any solver meeting C01\'s contract) over an executable model of the per-region part of '
+                'ImproveOrthogonalRoutes::nudgeOrthogonalRoutes: the generator of VPSC variables/constraints (weights and IDs of '
+                'orthogonal.cpp:54-62, channel-edge variables), the do/while `satisfied` loop with the unsatisfied-range gap rewriting and '
+                'the 10-step reduction, and the write-back. Proved: nudge_gen_wf (indices in range, gaps 0 or base distance, both channel '
+                'constraints for every non-fixed segment with finite limits, fixed / nudged-final segments never get freeWeight); '
+                'nudge_satisfied_post (satisfied exit => every constraint the solver did not flag holds with its current gap to 1e-10, each gap '
+                'is the generated one or a reduced value between the final sepDist and the base distance, final sepDist = base or > 1e-4, every '
+                'non-free variable within 1e-4 of its desired position); nudge_channel_post + written_within_limits (limits to 1e-4+1e-10 for '
+                'solver positions, exactly for written positions, fixed segments not written); nudge_unsatisfied_noop; nudge_no_new_segments; '
+                'C10_model (non-exempt overlapping pair ends >= final sepDist apart unless the solver flagged its constraint); soundness of the '
+                'region checker and of the scene checker; and a refutation: `satisfied` does not imply the constraints because the code never '
+                'reads Constraint::unsatisfiable. PARTIAL: the solver is a hypothesis (C01), region grouping / ordering / channel limits are '
+                'inputs, whole scenes are only checked (verified checker), not proved.',
+        'design_ref': 'DESIGN.md 5.10'},
+    'level_note': 'Trusted: Coq kernel; the hand-written model Avoid/NudgeModel.v tied to the code by hook H1 (guarded dump in orthogonal.cpp) and an '
+                  'exact correspondence on every run (generated vs/cs/gapcs/potential constraints, per-iteration satisfied / ranges / sepDist / '
+                  'rewritten gaps on the real solver results, final positions with the VPSC model of C01 to 1e-9); extraction and OCaml/C++/Python '
+                  'drivers; exact-rational model of binary64 (weights 0.00001, 0.001 and the 0.0001 tolerance are the exact binary64 values). '
+                  'Modelled not verified: VPSC solver (Section hypothesis = property C01), overlapsWith / shouldAlignWith / canAlignWith / shared-path '
+                  'set (taken as dumped data), linesort / PtOrderMap, buildOrthogonalChannelInfo. The scene-level statement (no movable overlap '
+                  'in a wide-enough channel, ends / checkpoints / segment count / orthogonality / obstacle-freeness kept) is decided by a verified '
+                  'checker on real outputs, i.e. validation. Known findings (KNOWN_FINDINGS.txt) are classified by predicates on the failing case.',
+    'technique': 'Coq proof over a hand-written region model + hook-based exact correspondence + verified region/scene checkers on real outputs',
+}
